@@ -169,6 +169,29 @@ def parse(constructs_text, assemble_text):
     c, _ = find_fn(t2, f2, "assemble_into", after=j)
     c.item = "impl Assemble for dr::Instruction"
     R["asm_Instruction"] = inst_stmts(c)
+    # fn assemble_str(s: &str, result: &mut Vec<u32>): statement by statement (chunk size and array length are data)
+    c, _ = find_fn(t2, f2, "assemble_str")
+    c.item = "fn assemble_str"
+    c.seq("let chunks = s . as_bytes ( ) . chunks_exact ("); n1 = c.num(); c.seq(") ;")
+    c.seq("let remainder = chunks . remainder ( ) ;")
+    c.seq("let mut last = [ 0 ;"); n2 = c.num(); c.seq("] ;")
+    c.seq("last [ .. remainder . len ( ) ] . copy_from_slice ( remainder ) ;")
+    c.seq("result . extend ( chunks . map ( | chunk | u32 :: from_le_bytes ( chunk . try_into ( ) . unwrap ( ) ) ) ) ;")
+    c.seq("result . push ( u32 :: from_le_bytes ( last ) ) ;")
+    if not c.eof(): c.fail("trailing statements in assemble_str")
+    R["asm_str"] = [("chunksExact", n1), ("remainder", 0), ("lastZero", n2), ("copyRemainder", 0), ("extendChunksLE", 0), ("pushLastLE", 0)]
+    # the default method `Assemble::assemble`: a fresh vector handed to assemble_into
+    for i in range(len(t2) - 1):
+        if t2[i] == ("id", "fn") and t2[i + 1] == ("id", "assemble"):
+            c = Cur(t2, f2, "Assemble::assemble"); c.i = i + 2
+            while not c.at_p("{"):
+                c.next()
+            c = Cur(c.group("{", "}"), f2, "Assemble::assemble")
+            c.seq("let mut v = vec ! [ ] ; self . assemble_into ( & mut v ) ; v")
+            if not c.eof(): c.fail("trailing tokens")
+            break
+    else:
+        raise TranslateError(f2, "Assemble::assemble", "default method not found")
     # header: result.extend([self.magic_number, self.version, self.generator, self.bound, self.reserved_word])
     j = find_impl(t2, f2, "Assemble", "ModuleHeader")
     c, _ = find_fn(t2, f2, "assemble_into", after=j)
